@@ -60,7 +60,7 @@ def kani_cmd(config, target_dir):
     return ['cargo', 'kani', '-Z', 'unstable-options', '-Z', 'stubbing', '--target-dir', target_dir] + feats
 
 
-def run_kani(prop, tier, config, patterns, jobs=16, harness_timeout='20m'):
+def run_kani(prop, tier, config, patterns, jobs=16, harness_timeout='20m', reach=True):
     """run all harnesses whose name contains one of `patterns`; returns parsed JSON export + log"""
     os.makedirs(BUILD, exist_ok=True)
     tdir = os.path.join(BUILD, 'kani-' + config)
@@ -69,7 +69,7 @@ def run_kani(prop, tier, config, patterns, jobs=16, harness_timeout='20m'):
         os.remove(out_json)
     cmd = kani_cmd(config, tdir) + ['--export-json', out_json, '-j', str(jobs), '--output-format', 'terse',
                                     '--harness-timeout', harness_timeout]
-    if tier == 'quick':
+    if tier == 'quick' or not reach:
         # Kani's per-assertion reachability covers triple the run time (CBMC emits a trace per cover);
         # the quick tier relies on the scenarios' own cover points, the thorough tier keeps both
         cmd += ['--no-assertion-reach-checks']
@@ -256,7 +256,7 @@ def run_e1(prop, tier, config, spec, parts, broken):
     if not insts:
         return None
     log('-- E1/Kani config=%s: %d harnesses' % (config, len(insts)))
-    r = run_kani(prop, tier, config, pats, jobs=spec.get('jobs', 16), harness_timeout=spec.get('harness_timeout', '20m' if tier == 'quick' else '60m'))
+    r = run_kani(prop, tier, config, pats, jobs=spec.get('jobs', 16), reach=spec.get('thorough_reach', True), harness_timeout=spec.get('harness_timeout', '20m' if tier == 'quick' else '60m'))
     an = analyse_kani(r['json'])
     part = dict(engine='E1/kani', config=config, cmd=r['cmd'], wall_s=round(r['wall'], 1), harnesses={}, log=r['log'])
     parts.append(part)
